@@ -151,7 +151,9 @@ def make_world_inproc(rng, idx, base):
             failing = set(rng.sample(range(n_runs), rng.randint(1, max(1, n_runs - 1))))
         nodes = gen_nodes(rng, d, ctx_factor=True)
         em = RunSpaceTraceEmitter(drv)
-        launch = RunSpaceLaunchManager().create_launch(run_space_spec_id="a" * 64, run_space_inputs_id=None)
+        # launch ids as users give them: generated, plain, and with blanks around / inside (the id is an opaque string)
+        given = [None, None, "nightly-42", " nightly-42", "nightly 42\t", "  ", "L\u00e9a-1 "][(idx + len(kind)) % 7] if idx >= 2 else [" nightly-42", None][idx % 2]
+        launch = RunSpaceLaunchManager().create_launch(run_space_spec_id="a" * 64, run_space_inputs_id=None, provided_launch_id=given)
         tc = TraceContext()
         tc.set_run_space_fk(spec_id="a" * 64, launch_id=launch.id, attempt=launch.attempt)
         em.emit_start(run_space_spec_id="a" * 64, run_space_launch_id=launch.id, run_space_attempt=launch.attempt,
